@@ -660,6 +660,14 @@ class ComputeGraph(MultiDiGraph):
         code_gen = self.backend
         code_gen.code.clear()
 
+        # functions that appear only in the derivatives (cos for sin, sinh for cosh, ...) need their imports as well
+        for d_expr in list(J0_entries.values()) + [e for entries in J_hist.values() for e in entries.values()]:
+            for f in self._resolve_derivatives(d_expr).atoms(sp.Function):
+                try:
+                    code_gen.get_op(f.func.__name__)
+                except (KeyError, AttributeError, TypeError):
+                    pass
+
         # Imports that the Jacobian assembly emits.  Must be declared BEFORE
         # generate_func_head, which materialises imports into the source file.
         code_gen.declare_local_array_imports()   # backend-specific (numpy / jax.numpy / ...)
